@@ -24,6 +24,9 @@ def corpus(d, tier):
     programs += pats
     bases = pats + pc.corpus_dir_programs("c01") + pc.generated_programs(d, 40 if tier == "quick" else 600, SEED + 43, "enums")
     programs += pc.arm_drop_mutants(d, "c03", bases, 40 if tier == "quick" else 200, SEED + 53)
+    # near misses: hand-written programs one type error away from an accepted one (corpus/c06/ill_typed*). The checker
+    # rejects them, so they are not judged — unless it starts accepting one, and then it has to run without going wrong
+    programs += pc.near_miss_programs()
     return programs
 
 
